@@ -8,7 +8,7 @@ import c10
 import vf
 
 ENTRIES = ["sigdb", "siglist", "sigdb.Unmarshal", "auth2", "auth2.Unmarshal", "wincert", "wincertguid", "loadopt", "devpath", "utf16", "efistr", "nullstr", "sigsupp",
-           "efivars", "key", "cert", "guid", "bootorder",
+           "efivars", "key", "cert", "guid", "bootorder", "loadopt.parse", "devnode.acpi", "devnode.hw", "devnode.msg", "devnode.media", "keyfile", "certfile",
            "sigdb@opaque", "auth2@opaque", "wincert@opaque", "wincertguid@opaque", "devpath@opaque", "sigsupp@opaque", "efivars@opaque"]
 
 
@@ -94,7 +94,7 @@ def run(c):
         fz.append(dict(s, sc=len(fz)))
     # (4) long series of distinct inputs per decoder, one after the other and from 8 goroutines at once: the process survives (a decoder that keeps
     #     unsynchronised state dies with a runtime fatal error) and nothing piles up in memory with the number of inputs seen
-    big = ("sigdb", "auth2", "auth2.Unmarshal", "sigdb.Unmarshal", "siglist", "wincert", "wincertguid", "key", "cert")
+    big = ("sigdb", "auth2", "auth2.Unmarshal", "sigdb.Unmarshal", "siglist", "wincert", "wincertguid", "key", "cert", "keyfile", "certfile")
     for e in ENTRIES:
         n = (3000 if c.quick else 30000) if e.split("@")[0] in big else (120000 if c.quick else 600000)
         fz.append({"sc": len(fz), "entry": e, "mode": "many", "n": n, "par": 1})
